@@ -73,6 +73,8 @@ enum Op {
     Remove(u8, usize, usize),
     Truncate(usize),
     Clear,
+    /// overwrite a differently sized value with `clone_from(&current)`, then continue from the copy
+    CloneFrom(u8),
 }
 
 /// (lower bound reported, upper bound reported or None, actual number of items)
@@ -278,6 +280,9 @@ impl<A: Sx> System for Edits<A> {
             v.push(Op::Truncate(n));
         }
         v.push(Op::Clear);
+        for w in 0..3u8 {
+            v.push(Op::CloneFrom(w));
+        }
         v
     }
 
@@ -359,6 +364,24 @@ impl<A: Sx> System for Edits<A> {
                 opname = "clear";
                 model.clear();
                 catch(|| next.clear())
+            }
+            Op::CloneFrom(w) => {
+                opname = "clone_from";
+                // the target previously held other content: empty, a donor window, or a longer copy of itself
+                catch(|| {
+                    let mut target: Seq<A> = match *w {
+                        0 => Seq::new(),
+                        1 => self.win(1).0.to_owned(),
+                        _ => {
+                            let mut t = s.real.clone();
+                            t.append(self.win(2).0);
+                            t.append(self.win(2).0);
+                            t
+                        }
+                    };
+                    target.clone_from(&s.real);
+                    next = target;
+                })
             }
         };
         out.count(opname, 1);
